@@ -194,7 +194,7 @@ fn judge(kind: Kind, w: &WireMsg, mode: &ValidationMode, out: &Outcome) -> Vec<(
     let mut bad = vec![];
     let m = match out {
         Outcome::Panic(p) => {
-            bad.push((format!("panic@{}", p.site()), p.msg.clone()));
+            bad.push((format!("panic@{}", crate::util::short_site(p)), p.msg.clone()));
             return bad;
         }
         Outcome::Valid(m) => m,
